@@ -1098,6 +1098,9 @@ def mutate(ex, st, recv: Val, name, args, kwargs, node):
     rt_ = recv.ty.inner if isinstance(recv.ty, T.Opt) else recv.ty
     as_set = (isinstance(rt_, T.Set) or (recv.is_py and isinstance(recv.py, (set, frozenset)))) and name in ("update", "difference_update", "intersection_update", "symmetric_difference_update")
     args = [materialize_set(ex, a) if as_set else materialize(ex, a) for a in args]
+    if name == "extend" and args and carrier_info(args[0]) is not None:
+        # xs.extend(d.values()) / .keys() / .items() / range(..) / enumerate(..): the items of the view in iteration order
+        args = [carrier_to_list(ex, st, carrier_info(args[0]), node)] + list(args[1:])
     none = Val.const(None)
     recv = ex.deopt(recv, st, node)
     if name in ("setdefault", "pop", "remove", "discard", "add") and args and isinstance(recv.ty, (T.Dict, T.Set)):
